@@ -176,7 +176,7 @@ func sizeBucket(n int) string {
 }
 
 var specStream = pbt.Register(pbt.Spec[StreamCase]{
-	Prop: "C08", Name: "step-stream",
+	Prop: "C08", Name: "step-stream", Parallel: 8,
 	Rule:  "lists of 0-60 steps over the 9 registered step types (HttpcStepX in versions 0,1,2,3) with every field filled from a rapid-drawn choice stream, encoded with ToBytesStep, optionally carried through ProfilePack / ProfileStepSplitPack / ErrorSnapPack1, decoded step by step; oracle = blob is the concatenation of the individual encodings and stays so while two other profiles are encoded, each ReadStep consumes exactly its own bytes and returns an equal step of the same type, nothing but a foreign trailing byte is left, re-encoding is identical; non-trivial = stream with >= 3 different step types; distinct by bytes",
 	Quick: 1800, Thorough: 120000,
 	Draw: func(t *rapid.T) StreamCase {
@@ -232,7 +232,7 @@ func runOne(c OneCase) *pbt.Result {
 }
 
 var specOne = pbt.Register(pbt.Spec[OneCase]{
-	Prop: "C08", Name: "step-write-read",
+	Prop: "C08", Name: "step-write-read", Parallel: 8,
 	Rule:  "one step of any of the 11 step types (incl. MessageStepX with Attr nil/empty/filled and SqlStep_3 with every combination of its three section flags) through its own Write/Read: equal fields, exact consumption with foreign trailing bytes, identical re-encoding, absent optional sections left at zero; non-trivial = at least half of the fields non-default; distinct by type+bytes",
 	Quick: 3000, Thorough: 150000,
 	Draw: func(t *rapid.T) OneCase {
@@ -304,7 +304,7 @@ func runTx(c RecCase) *pbt.Result {
 }
 
 var specTx = pbt.Register(pbt.Spec[RecCase]{
-	Prop: "C08", Name: "tx-record",
+	Prop: "C08", Name: "tx-record", Parallel: 8,
 	Rule:  "transaction records with every combination of the optional groups (multi-trace ids present iff Mtid != 0, caller identity iff McallerPcode != 0, custom fields nil/empty/filled) through ToBytes/ToObject and Write/Read with trailing bytes; optional groups restored exactly when present, absent ones zero, ErrorLevel defaulting as documented; non-trivial = at least one optional group present; distinct by bytes",
 	Quick: 2500, Thorough: 120000,
 	Draw: func(t *rapid.T) RecCase {
@@ -354,7 +354,7 @@ func runSvc(c SvcCase) *pbt.Result {
 }
 
 var specSvc = pbt.Register(pbt.Spec[SvcCase]{
-	Prop: "C08", Name: "service-record",
+	Prop: "C08", Name: "service-record", Parallel: 8,
 	Rule:  "Was / App / Was2 service records with every field filled, written with their type tag (service.ToBytes) and read back (service.ToObject): same type, equal carried fields, exact consumption, identical re-encoding; non-trivial = at least half of the fields non-default; distinct by bytes",
 	Quick: 1500, Thorough: 60000,
 	Draw: func(t *rapid.T) SvcCase {
